@@ -491,6 +491,14 @@ def sorted_keys_symbolic(keys):
 
 # ---- harness helpers
 
+class CInt(int):
+    """A plain int (C code sees a real int; arithmetic yields plain ints) that also answers `.e` for oracle formulas."""
+
+    @property
+    def e(self):
+        return z3.IntVal(int(self))
+
+
 def fresh_int(ctx: Ctx, name: str, lo=None, hi=None):
     if ctx.concrete is not None:
         # concrete replay mode: plain Python ints from the model, no proxies; bounds are checked like assumptions
@@ -500,7 +508,7 @@ def fresh_int(ctx: Ctx, name: str, lo=None, hi=None):
                 from .core import Abort
                 raise Abort()
         ctx.vars[name] = z3.IntVal(v)
-        return v
+        return CInt(v)
     t = ctx.declare(name, z3.Int(name))
     if lo is not None:
         ctx.assume(t >= lift(lo))
